@@ -201,6 +201,10 @@ static void build_items()
     I.push_back(arr("array:with-range", {range_bc("range:b-c:int", "1", "5", {pf::I(1), pf::I(2), pf::I(3), pf::I(4), pf::I(5)})}, 0, true));
     I.push_back(arr("array:with-range", {i0, range_abc("range:a-b-c:int", "10", "8", "2", {pf::I(10), pf::I(8), pf::I(6), pf::I(4), pf::I(2)})}));
     I.push_back(arr("array:with-repetition", {i0, rep(3, i1), i2}));
+    // a range / repetition as FIRST element of an array, followed by ordinary elements (the printer writes [1 1 1 1 1 2] like this)
+    I.push_back(arr("array:range-first", {rep(3, i1), i2}, 0, true));
+    I.push_back(arr("array:range-first", {range_abc("range:a-b-c:int", "1", "2", "3", {pf::I(1), pf::I(2), pf::I(3)}), one("int:dec", "7", pf::I(7))}));
+    I.push_back(arr("array:range-first", {rep(2, one("s:plain", "\"a\"", pf::Str("a"))), one("s:plain", "\"b\"", pf::Str("b"))}));
     I.push_back(arr("array:endless-delta", {i1, i2}, 2, true));
     I.push_back(arr("array:endless-delta", {i0, one("int:dec", "10", pf::I(10)), one("int:dec", "7", pf::I(7))}, 2));
     I.push_back(arr("array:endless-same", {i1, i1}, 1, true));
@@ -210,14 +214,14 @@ static void build_items()
 }
 
 // ------------------------------------------------------------------------------------------------ texts
-static const std::vector<std::string> DEV_V = {"  ", "\t", "\n", " % c\n", "\n% c\n  ", " % 2x[ ... \" '\n"};
+static const std::vector<std::string> DEV_V = {"  ", "\t", "\n", " % c\n", "\n% c\n  ", " % 2x[ ... \" '\n", " % one\n% two\n  % three\n"};
 static const std::vector<std::string> DEV_W = {"  ", "\t", "\n"};
 static const std::vector<std::string> DEV_R = {"", "  ", "\n"};
 static const std::vector<std::string> DEV_O = {" ", "\n"};
 static const std::vector<std::string> &devs(char g) { return g == 'v' ? DEV_V : g == 'w' ? DEV_W : g == 'r' ? DEV_R : DEV_O; }
 static const char *dev_name(char g, size_t k)
 {
-    static const char *v[] = {"two-spaces", "tab", "newline", "comment", "newline-comment-indent", "comment-with-syntax-chars"};
+    static const char *v[] = {"two-spaces", "tab", "newline", "comment", "newline-comment-indent", "comment-with-syntax-chars", "three-comment-lines"};
     static const char *w[] = {"two-spaces", "tab", "newline"};
     static const char *r[] = {"removed", "two-spaces", "newline"};
     static const char *o[] = {"space", "newline"};
@@ -269,7 +273,7 @@ struct Sentence {
         if(starts("range:a-b-c")) return "range-abc";
         if(starts("range:b-c")) return "range-bc";
         if(starts("array:endless")) return "array-endless";
-        if(k == "array:with-range" || k == "array:with-repetition" || k == "array:nested" || k == "array:empty") return k;
+        if(k == "array:range-first" || k == "array:with-range" || k == "array:with-repetition" || k == "array:nested" || k == "array:empty") return k;
         if(starts("array:")) return "array";
         return k;
     }
@@ -558,7 +562,7 @@ int main(int argc, char **argv)
     vp::bound("items", (long long)all.size());
     vp::bound("items_sub_alphabet", (long long)subset.size());
     vp::bound("sentences", T ? "all legal sequences of 1..3 items; 4 items over the sub-alphabet" : "all legal sequences of 1..2 items; 3 items over the sub-alphabet");
-    vp::bound("deviations", "separator at a token boundary replaced by one of: between values {2 spaces, tab, newline, ' % c\\n', '\\n% c\\n  ', comment with syntax characters}; inside items/arrays {2 spaces, tab, newline}; behind '[' / before ']' {space, newline}; '... ]' {removed, 2 spaces, newline}");
+    vp::bound("deviations", "separator at a token boundary replaced by one of: between values {2 spaces, tab, newline, ' % c\\n', '\\n% c\\n  ', comment with syntax characters, three comment lines}; inside items/arrays {2 spaces, tab, newline}; behind '[' / before ']' {space, newline}; '... ]' {removed, 2 spaces, newline}");
     vp::bound("deviation_depth", T ? "1 item: 0,1,2 at all boundaries; 2 items: 0,1,2 at all boundaries; 3 items: 0,1 at all boundaries and 2 at the boundaries between items; 4 items: 0,1 between items"
                                    : "1-2 items: 0,1,2 at all boundaries; 3 items: 0,1 at the boundaries between items");
     vp::bound("reprint_options", "print(scan(text)) with {80 cols, precision 2, compress}, {20 cols, precision 9, no compress}, {10 cols, precision 0, compress}, lossless");
